@@ -5,11 +5,16 @@ import (
 	"encoding/json"
 	"flag"
 	"fmt"
+	"go/ast"
+	"go/parser"
+	"go/token"
 	"math/rand"
 	"os"
 	"os/exec"
 	"path/filepath"
+	"regexp"
 	"sort"
+	"strconv"
 	"strings"
 	"sync"
 
@@ -59,16 +64,24 @@ func cgen(args []string) {
 	fs.Parse(args)
 
 	var bodies [][]*mg.Stmt
-	nRandom, depth, width := 700, 1, 2
+	nRandom, depth, width, nDeep := 700, 1, 2, 300
 	if *tier == "thorough" {
-		nRandom, depth, width = 6000, 2, 2
+		nRandom, nDeep = 6000, 3000
 	}
 	small := mg.Small(depth, width)
-	if *tier != "thorough" && len(small) > 400 {
-		// quick: a seeded sample of the exhaustive set
+	{
 		r := rand.New(rand.NewSource(*seed + 5))
-		r.Shuffle(len(small), func(i, j int) { small[i], small[j] = small[j], small[i] })
-		small = small[:400]
+		if *tier != "thorough" {
+			// quick: a seeded sample of the exhaustive depth-1 set
+			r.Shuffle(len(small), func(i, j int) { small[i], small[j] = small[j], small[i] })
+			if len(small) > 300 {
+				small = small[:300]
+			}
+		}
+		// random members of the same reduced grammar at nesting depth 2-3
+		for i := 0; i < nDeep; i++ {
+			small = append(small, mg.SmallRandom(r, 2+r.Intn(2), 2))
+		}
 	}
 	bodies = append(bodies, small...)
 	r := rand.New(rand.NewSource(*seed))
@@ -291,13 +304,13 @@ func crun(args []string) {
 			go func(ob okBatch) {
 				defer wg.Done()
 				defer func() { <-sem2 }()
-				buildErr, traces := buildAndRun(mod, ob.id, ob.names, ob.progs, *fuel, *maxPull)
+				buildErrs, traces := buildAndRun(mod, ob.id, ob.names, ob.progs, *fuel, *maxPull)
 				mu.Lock()
 				defer mu.Unlock()
 				for _, n := range ob.names {
 					r := byName[n]
-					if buildErr != "" {
-						r.Build = buildErr
+					if be, bad := buildErrs[n]; bad {
+						r.Build = be
 						continue
 					}
 					r.RunC = traces["C "+n]
@@ -367,34 +380,130 @@ func readProgs(p string) []progLine {
 	return out
 }
 
-func buildAndRun(mod, id string, names []string, progs []*mg.Prog, fuel, pulls int) (string, map[string]string) {
+// blame: which functions of dir/gen.go do the compiler's error lines fall into?
+func blame(mod, rel string, buildOut string) map[string]bool {
+	out := map[string]bool{}
+	src, err := os.ReadFile(filepath.Join(mod, rel))
+	if err != nil {
+		return out
+	}
+	fset := token.NewFileSet()
+	f, err := parser.ParseFile(fset, "gen.go", src, parser.SkipObjectResolution)
+	if err != nil {
+		return out
+	}
+	re := regexp.MustCompile(regexp.QuoteMeta(rel) + `:(\d+):`)
+	for _, m := range re.FindAllStringSubmatch(buildOut, -1) {
+		line, _ := strconv.Atoi(m[1])
+		for _, d := range f.Decls {
+			if fd, ok := d.(*ast.FuncDecl); ok {
+				if fset.Position(fd.Pos()).Line <= line && line <= fset.Position(fd.End()).Line {
+					out[fd.Name.Name] = true
+				}
+			}
+		}
+	}
+	return out
+}
+
+// dropFuncs removes the named top-level functions from a Go file (so that the rest still builds)
+func dropFuncs(path string, names map[string]bool) {
+	src, err := os.ReadFile(path)
+	if err != nil {
+		return
+	}
+	fset := token.NewFileSet()
+	f, err := parser.ParseFile(fset, path, src, parser.SkipObjectResolution|parser.ParseComments)
+	if err != nil {
+		return
+	}
+	type span struct{ a, b int }
+	var spans []span
+	for _, d := range f.Decls {
+		if fd, ok := d.(*ast.FuncDecl); ok && names[fd.Name.Name] {
+			a := fset.Position(fd.Pos()).Offset
+			if fd.Doc != nil {
+				a = fset.Position(fd.Doc.Pos()).Offset
+			}
+			spans = append(spans, span{a, fset.Position(fd.End()).Offset})
+		}
+	}
+	out := []byte{}
+	last := 0
+	for _, sp := range spans {
+		out = append(out, src[last:sp.a]...)
+		last = sp.b
+	}
+	out = append(out, src[last:]...)
+	os.WriteFile(path, out, 0o644)
+}
+
+// buildAndRun returns per-function build errors and traces
+func buildAndRun(mod, id string, names []string, progs []*mg.Prog, fuel, pulls int) (map[string]string, map[string]string) {
+	buildErrs := map[string]string{}
 	refDir := filepath.Join(mod, "ref", id)
 	cmdDir := filepath.Join(mod, "cmd", id)
 	os.MkdirAll(refDir, 0o755)
 	os.MkdirAll(cmdDir, 0o755)
-	os.WriteFile(filepath.Join(refDir, "ref.go"), []byte(mg.RenderRef(id+"ref", "scratch/vm", progs)), 0o644)
-	var b strings.Builder
-	fmt.Fprintf(&b, "package main\n\nimport (\n\t\"fmt\"\n\t\"strings\"\n\t\"scratch/vm\"\n\tout \"scratch/out/%s\"\n\ttmp \"scratch/tmp/%s\"\n\tref \"scratch/ref/%s\"\n)\n\n", id, id, id)
-	b.WriteString("func main() {\n")
-	for _, n := range names {
-		fmt.Fprintf(&b, "\tfmt.Println(\"C %s\", strings.Join(vm.Drain(func() vm.Puller { return out.%s() }, %d, %d), \" \"))\n", n, n, pulls, fuel)
-		fmt.Fprintf(&b, "\tfmt.Println(\"T %s\", strings.Join(vm.Drain(func() vm.Puller { return tmp.%s() }, %d, %d), \" \"))\n", n, n, pulls, fuel)
-		fmt.Fprintf(&b, "\tfmt.Println(\"R %s\", strings.Join(vm.Drain(func() vm.Puller { return vm.StartRef(ref.%s) }, %d, %d), \" \"))\n", n, n, pulls, fuel)
-	}
-	b.WriteString("}\n")
-	os.WriteFile(filepath.Join(cmdDir, "main.go"), []byte(b.String()), 0o644)
 	bin := filepath.Join(mod, "bin", id)
 	os.MkdirAll(filepath.Dir(bin), 0o755)
-	cmd := exec.Command("go", "build", "-o", bin, "./cmd/"+id)
-	cmd.Dir = mod
-	if outb, err := cmd.CombinedOutput(); err != nil {
-		return "BUILD " + tail(string(outb), 1500), nil
+	for attempt := 0; attempt < 3; attempt++ {
+		var live []string
+		var liveProgs []*mg.Prog
+		for i, n := range names {
+			if _, bad := buildErrs[n]; !bad {
+				live = append(live, n)
+				liveProgs = append(liveProgs, progs[i])
+			}
+		}
+		if len(live) == 0 {
+			return buildErrs, nil
+		}
+		os.WriteFile(filepath.Join(refDir, "ref.go"), []byte(mg.RenderRef(id+"ref", "scratch/vm", liveProgs)), 0o644)
+		var b strings.Builder
+		fmt.Fprintf(&b, "package main\n\nimport (\n\t\"fmt\"\n\t\"strings\"\n\t\"scratch/vm\"\n\tout \"scratch/out/%s\"\n\ttmp \"scratch/tmp/%s\"\n\tref \"scratch/ref/%s\"\n)\n\n", id, id, id)
+		b.WriteString("func main() {\n")
+		for _, n := range live {
+			fmt.Fprintf(&b, "\tfmt.Println(\"C %s\", strings.Join(vm.Drain(func() vm.Puller { return out.%s() }, %d, %d), \" \"))\n", n, n, pulls, fuel)
+			fmt.Fprintf(&b, "\tfmt.Println(\"T %s\", strings.Join(vm.Drain(func() vm.Puller { return tmp.%s() }, %d, %d), \" \"))\n", n, n, pulls, fuel)
+			fmt.Fprintf(&b, "\tfmt.Println(\"R %s\", strings.Join(vm.Drain(func() vm.Puller { return vm.StartRef(ref.%s) }, %d, %d), \" \"))\n", n, n, pulls, fuel)
+		}
+		b.WriteString("}\n")
+		os.WriteFile(filepath.Join(cmdDir, "main.go"), []byte(b.String()), 0o644)
+		cmd := exec.Command("go", "build", "-o", bin, "./cmd/"+id)
+		cmd.Dir = mod
+		outb, err := cmd.CombinedOutput()
+		if err == nil {
+			break
+		}
+		bo := string(outb)
+		bad := blame(mod, filepath.Join("out", id, "gen.go"), bo)
+		for n := range blame(mod, filepath.Join("tmp", id, "gen.go"), bo) {
+			bad[n] = true
+		}
+		if len(bad) == 0 || attempt == 2 {
+			// cannot attribute: the whole batch is unbuildable
+			for _, n := range live {
+				buildErrs[n] = "BUILD(batch) " + tail(bo, 800)
+			}
+			return buildErrs, nil
+		}
+		for n := range bad {
+			buildErrs[n] = "BUILD " + tail(bo, 800)
+		}
+		dropFuncs(filepath.Join(mod, "out", id, "gen.go"), bad)
+		dropFuncs(filepath.Join(mod, "tmp", id, "gen.go"), bad)
 	}
 	run := exec.Command("timeout", "120", bin)
 	run.Dir = mod
 	outb, err := run.CombinedOutput()
 	if err != nil {
-		return "RUN " + tail(string(outb), 1500), nil
+		for _, n := range names {
+			if _, bad := buildErrs[n]; !bad {
+				buildErrs[n] = "RUN " + tail(string(outb), 800)
+			}
+		}
+		return buildErrs, nil
 	}
 	traces := map[string]string{}
 	for _, l := range strings.Split(string(outb), "\n") {
@@ -406,5 +515,5 @@ func buildAndRun(mod, id string, names []string, progs []*mg.Prog, fuel, pulls i
 		}
 	}
 	os.Remove(bin)
-	return "", traces
+	return buildErrs, traces
 }
